@@ -20,8 +20,6 @@ def BlockSt.empty : BlockSt := { refs := none, refCount := 0, replicas := [], de
 def addReplica (bs : BlockSt) (r : Replica) : BlockSt :=
   { bs with replicas := bs.replicas ++ [r], refs := none }
 
-def lookupD (m : List (Class × Nat)) (c : Class) : Option Nat := (m.find? (fun p => p.1 == c)).map (·.2)
-
 /-- `if d, ok := bs.Desired[class]; !ok || d < n { bs.Desired[class] = n }` -/
 def raiseDesired (m : List (Class × Nat)) (c : Class) (n : Nat) : List (Class × Nat) :=
   match lookupD m c with
